@@ -281,6 +281,89 @@ theorem lister_missing (ign : Str → Filemode → Bool) (acc : Str → Bool × 
   have : path.isEmpty = false := by cases path <;> simp_all
   simp [addFiles, this]
 
+/-! ## `cppcheck -i <str>`: from the command line to the selection -/
+
+/-- hypothesis of the command-line theorems: a pattern that is neither absolute nor relative to the current directory
+    (it may match at any directory boundary) must not contain a `..` that climbs above its own start -/
+def UserPatternOk (u : Str) : Bool :=
+  absoluteU (removeQuotationMarks u) || relativeU (removeQuotationMarks u) ||
+    CanonDomain (rawOf .unix (normalizeIgnored u) []).1 (rawOf .unix (normalizeIgnored u) []).2
+
+/-- **one `-i` value**: with an absolute current directory, the matcher applied to the value as `parseFromArgs` hands it
+    over (quotation marks removed, native separators converted – nothing else) decides exactly the documented rule for the
+    text the user wrote: a pattern that is `.`/`..` or starts with `./` `../` (either separator) is resolved against the
+    current directory and must match from the start of the path, a pattern starting with a separator is absolute, every other
+    pattern may match behind any separator; a trailing separator makes it a directory pattern -/
+theorem cli_ignore_eq_rule (mode : Filemode) (u path cwd : Str) (hcwd : isAbsolute cwd = true)
+    (hu : UserPatternOk u = true) :
+    pathMatch .fixed .unix mode (normalizeIgnored u) path cwd = true ↔ UserIgnoreSpec mode u path cwd := by
+  rw [← pathMatchSpec_normalized]
+  apply Cppcheck.PathMatch.pathMatch_eq_spec
+  · unfold rawPattern
+    have hr : isRelativePattern (normalizeIgnored u) = relativeU (removeQuotationMarks u) := isRelativePattern_fromNative _
+    have ha : isAbsolute (normalizeIgnored u) = absoluteU (removeQuotationMarks u) := isAbsolute_fromNative _
+    by_cases h1 : relativeU (removeQuotationMarks u) = true
+    · simp only [hr, h1, if_true]; exact canonDomain_of_absolute cwd _ hcwd
+    · simp only [hr, h1, Bool.false_eq_true, if_false]
+      by_cases h2 : absoluteU (removeQuotationMarks u) = true
+      · exact canonDomain_of_absolute _ [] (by rw [ha]; exact h2)
+      · simp only [UserPatternOk, Bool.or_eq_true] at hu
+        rcases hu with (h | h) | h
+        · exact absurd h h2
+        · exact absurd h h1
+        · exact h
+  · unfold rawPath
+    by_cases h1 : isAbsolute path = true
+    · simp only [h1, if_true]; exact canonDomain_of_absolute path [] h1
+    · simp only [h1, Bool.false_eq_true, if_false]; exact canonDomain_of_absolute cwd path hcwd
+
+/-- **the whole `-i` path**: `cppcheck -i u₁ -i u₂ … path` run in the absolute directory `cwd` selects, for every
+    directory tree, exactly the sorted list of the accepted files that the documented rule – applied to the patterns as
+    the user wrote them – does not cut off on the way down -/
+theorem cli_selection_exact (us : List Str) (acc : Str → Bool × Lang) (cwd path : Str) (node : Tree)
+    (hcwd : isAbsolute cwd = true) (hus : ∀ u ∈ us, UserPatternOk u = true) (hp : path ≠ []) :
+    addFiles (cliIgnored us cwd) acc path (some node) =
+      ("", sortFiles (selected (fun p m => us.any (fun u => userIgnoreSpecB m u p cwd)) acc (correctedPath path) node)) := by
+  have hfun : cliIgnored us cwd = fun p m => us.any (fun u => userIgnoreSpecB m u p cwd) := by
+    funext p m
+    simp only [cliIgnored, pathMatchList]
+    have key : ∀ l : List Str, (∀ u ∈ l, UserPatternOk u = true) →
+        (l.map normalizeIgnored).any (fun pattern => pathMatch .fixed .unix m pattern p cwd) =
+          l.any (fun u => userIgnoreSpecB m u p cwd) := by
+      intro l
+      induction l with
+      | nil => intro _; rfl
+      | cons u l ih =>
+        intro hl
+        have h1 : pathMatch .fixed .unix m (normalizeIgnored u) p cwd = userIgnoreSpecB m u p cwd := by
+          rw [Bool.eq_iff_iff, userIgnoreSpecB_iff]
+          exact cli_ignore_eq_rule m u p cwd hcwd (hl u (by simp))
+        simp only [List.map_cons, List.any_cons, h1, ih (fun v hv => hl v (by simp [hv]))]
+    exact key us hus
+  rw [hfun]
+  exact lister_exact _ acc path node hp
+
+/-- the values reach the matcher exactly as `normalizeIgnored` leaves them, in the order given; empty values are dropped,
+    a missing value is an error -/
+example : parseIgnoreArgs ["-i".toList, ".\\g\\".toList, "-i\"a b\"/".toList, "-i".toList, [], "s".toList] =
+    some (["./g/".toList, "a b/".toList], ["s".toList]) := by decide
+example : parseIgnoreArgs ["-i".toList, "-x".toList, "s".toList] = none ∧ parseIgnoreArgs ["s".toList, "-i".toList] = none := by
+  decide
+
+/-- `Path::simplifyPath` is NOT a valid normalisation of an ignore pattern: it strips the leading `./` that anchors the
+    pattern at the current directory (`-i ./g` would also exclude `l/g/b.c`) -/
+theorem cli_simplifyPath_normalisation_counterexample :
+    simplifyPath "./g".toList = "g".toList ∧ normalizeIgnored "./g".toList = "./g".toList ∧
+    pathMatch .fixed .unix .regular "g".toList "l/g/b.c".toList "/w".toList = true ∧
+    pathMatch .fixed .unix .regular "./g".toList "l/g/b.c".toList "/w".toList = false ∧
+    ¬ UserIgnoreSpec .regular "./g".toList "l/g/b.c".toList "/w".toList := by
+  refine ⟨by decide, by decide, by decide, by decide, ?_⟩
+  rw [← cli_ignore_eq_rule .regular _ _ _ (by decide) (by decide)]
+  decide
+
+example : UserPatternOk "./gen".toList = true ∧ UserPatternOk "gen/*.c".toList = true ∧ UserPatternOk ".\\gen\\".toList = true ∧
+    UserPatternOk "a/../../b".toList = false := by decide
+
 example : (Tree.dir [] [.file "b.cpp".toList, .dir "sub".toList [.file "a.c".toList, .file "n.txt".toList], .file "m.h".toList]).wf = true := by
   decide
 example : selected (fun p _ => p == "r/s".toList) (acceptFile []) "r".toList
